@@ -364,3 +364,56 @@ pub fn msm_invalid_search(rng: &mut crate::Rng, budget: u64) -> Result<u64, (Vec
     }
     Ok(n)
 }
+
+/// C08 / C11 / C16 stand-in for the three hand-written bias quantisers (1059/1065: 14 bits x 0.01 m; 1230: 16 bits x 0.02 m), through the
+/// public API only: for EVERY wire pattern p of the field and inputs on and around the grid point p*R (never outside the representable
+/// range), the built frame decodes to exactly one entry within half a step of the input, and re-encoding the decoded message gives the
+/// same frame (lossless on the grid).  Input encoding for rerun: [which 0..=2, pattern as 4 little-endian bytes, offset index].
+const BQ_OFF: [f64; 5] = [0.0, 0.3, -0.3, 0.49, -0.49];
+pub fn biasq_one(which: u8, p: i32, oi: usize) -> Option<String> {
+    use rtcm_rs::msg::*;
+    let (r, lo, hi): (f64, i32, i32) = if which == 2 { (0.02, -32768, 32767) } else { (0.01, -8192, 8191) };
+    let xr = (p as f64 + BQ_OFF[oi % 5]) * r;
+    if xr < lo as f64 * r || xr > hi as f64 * r { return None; }
+    let x = xr as f32;
+    let build = |b: f32| -> Message {
+        match which {
+            0 => { let mut m = Msg1059T::default(); m.biases.push(Msg1059CodeBias { satellite_id: 7, signal_id: GpsSigId::new(1, 'C'), bias_m: b }); Message::Msg1059(m) }
+            1 => { let mut m = Msg1065T::default(); m.biases.push(Msg1065CodeBias { satellite_id: 7, signal_id: GloSigId::new(1, 'C'), bias_m: b }); Message::Msg1065(m) }
+            _ => { let mut m = Msg1230T::default(); m.glo_code_phase_biases.push(Msg1230CodePhaseBias { signal_id: GloSigId::new(1, 'C'), bias_m: b }); Message::Msg1230(m) }
+        }
+    };
+    let name = ["1059", "1065", "1230"][which as usize % 3];
+    let enc = |m: Message| std::panic::catch_unwind(move || { let mut b = MessageBuilder::new(); b.build_message(&m).map(|x| x.to_vec()).map_err(|e| format!("{:?}", e)) });
+    let f1 = match enc(build(x)) { Err(_) => return Some(format!("{}: encode panicked for in-range bias {:e}", name, x)), Ok(Err(e)) => return Some(format!("{}: in-range bias {:e} rejected: {}", name, x, e)), Ok(Ok(f)) => f };
+    let back = match std::panic::catch_unwind(|| MessageFrame::new(&f1).map(|fr| fr.get_message()).ok()) { Ok(Some(m)) => m, _ => return Some(format!("{}: frame built for bias {:e} is not accepted", name, x)) };
+    let got: Vec<f32> = match &back {
+        Message::Msg1059(m) => m.biases.iter().map(|e| e.bias_m).collect(),
+        Message::Msg1065(m) => m.biases.iter().map(|e| e.bias_m).collect(),
+        Message::Msg1230(m) => m.glo_code_phase_biases.iter().map(|e| e.bias_m).collect(),
+        _ => return Some(format!("{}: frame built for bias {:e} decodes to another message", name, x)),
+    };
+    if got.len() != 1 { return Some(format!("{}: one entry with bias {:e} (pattern {}) encoded, {} entries decoded", name, x, p, got.len())); }
+    let err = (got[0] as f64 - xr).abs();
+    if err > r * 0.5 + 4e-7 * (xr.abs() + r) + 2e-6 { return Some(format!("{}: in-range bias {:e} decodes as {:e}: error {:e} > half a step {:e}", name, x, got[0], err, r * 0.5)); }
+    match enc(back) { Ok(Ok(f2)) if f2 == f1 => None, Ok(Ok(_)) => Some(format!("{}: decode then encode does not reproduce the frame for bias pattern {} ({:e})", name, p, x)), _ => Some(format!("{}: re-encoding the decoded message fails for bias pattern {}", name, p)) }
+}
+
+pub fn biasq_search() -> Result<u64, (Vec<u8>, String)> {
+    let mut n = 0u64;
+    for which in 0u8..3 {
+        let (lo, hi) = if which == 2 { (-32768i32, 32767i32) } else { (-8192, 8191) };
+        for p in lo..=hi {
+            // every pattern on the grid; the off-grid neighbours for the range ends, around zero and every 7th pattern
+            let dense = p - lo < 3 || hi - p < 3 || p.abs() < 3 || p % 7 == 0;
+            for oi in 0..(if dense { 5 } else { 1 }) {
+                n += 1;
+                if let Some(w) = biasq_one(which, p, oi) {
+                    let mut inp = vec![which]; inp.extend_from_slice(&p.to_le_bytes()); inp.push(oi as u8);
+                    return Err((inp, w));
+                }
+            }
+        }
+    }
+    Ok(n)
+}
